@@ -72,6 +72,15 @@ pub enum SState {
 }
 
 impl SState {
+    pub fn phase(self) -> &'static str {
+        match self {
+            SState::Fresh => "fresh",
+            SState::Active => "active",
+            SState::Done => "after-end",
+            SState::Closed => "after-finish",
+            SState::Error => "after-error",
+        }
+    }
     pub fn name(self) -> &'static str {
         match self {
             SState::Fresh => "Fresh",
@@ -93,6 +102,9 @@ pub struct StreamModel {
     cursor: usize,
     collected_refs: Vec<String>,
     result: Option<ResC>,
+    /// per-item timeout of the stream, if the search was opened with one
+    pub timeout_ms: Option<u64>,
+    pub adapter: Adapter,
 }
 
 pub fn synthetic(rc: u32) -> ResC {
@@ -100,7 +112,7 @@ pub fn synthetic(rc: u32) -> ResC {
 }
 
 impl StreamModel {
-    pub fn open(plan: &ReplyPlan, adapter: Adapter) -> Option<StreamModel> {
+    pub fn open(plan: &ReplyPlan, adapter: Adapter, timeout_ms: Option<u64>) -> Option<StreamModel> {
         let (items, done) = match plan {
             ReplyPlan::Items { items, done, .. } => (items.clone(), done.clone()),
             _ => return None,
@@ -113,6 +125,8 @@ impl StreamModel {
             cursor: 0,
             collected_refs: vec![],
             result: None,
+            timeout_ms,
+            adapter,
         })
     }
 
@@ -128,6 +142,10 @@ impl StreamModel {
         loop {
             if self.cursor < self.items.len() {
                 let it = &self.items[self.cursor];
+                if matches!(self.timeout_ms, Some(t) if it.gap_ms >= t) {
+                    self.state = SState::Error;
+                    return Ret::Err(crate::world::ErrC::Timeout);
+                }
                 self.cursor += 1;
                 if self.entries_only {
                     match &it.op {
@@ -143,6 +161,10 @@ impl StreamModel {
             }
             // SearchResultDone
             let d = self.done.as_ref().expect("model: next() would block");
+            if matches!(self.timeout_ms, Some(t) if d.gap_ms >= t) {
+                self.state = SState::Error;
+                return Ret::Err(crate::world::ErrC::Timeout);
+            }
             self.result = Some(res_expect(&d.res, &d.ctrls));
             self.state = SState::Done;
             return Ret::Item(None);
